@@ -65,7 +65,11 @@ impl ProcessorState {
     pub(crate) fn signal_shutdown(&self) {
         // Release ordering ensures all prior task queue operations are visible to workers
         // before they observe the shutdown flag.
+        #[cfg(folo_verif)]
+        crate::verif_hook::point("signal_shutdown:flag.store");
         self.shutdown_flag.store(true, Ordering::Release);
+        #[cfg(folo_verif)]
+        crate::verif_hook::point("signal_shutdown:notify");
         self.wake_event.notify(usize::MAX);
     }
 
